@@ -36,7 +36,10 @@ func Run(r *ev.Run) {
 		"(c) logs with an entry longer than 64 KiB; (d) logs written by concurrent goroutines (intact + wrong key only); " +
 		"(e) log level x empty-chain histories: 15 directed histories (ResetChain / FinalizeChain / process restart right after start, twice and three times in a row, with only info/debug entries in between, killed processes) " +
 		"and seeded ones (3-12 steps, 45 % restarts), entries at error/warn/info/debug, x 3 formats x logging.SetLogLevel(LogDiscard|LogVerbose|LogDebug) x 2 wirings; which step wrote which lines is observed (file size after every call), " +
-		"same oracles and edits as (b) with byte changes at sampled offsets (quick tier: edits for every LogDiscard log and every second other log). Edits per log (b): every byte of every protected line " +
+		"same oracles and edits as (b) with byte changes at sampled offsets (quick tier: edits for every LogDiscard log and every second other log); " +
+		"(f) small logs (3-5 entries of any content class, both wirings, ResetChain / process restart / killed process) on EVERY entry of which the complete catalogue of additions is run: data added behind the last byte, in front of the first byte, " +
+		"around the entry, or as a member / extension key in the last or first position inside it, no byte of the entry itself changed: every single byte value but LF, every pair of the format's structural characters, white space (ASCII, Unicode, CR, byte order mark), " +
+		"forged second entries / JSON objects / arrays / scalars glued or after blank, comma, CR, copies of this and another entry, closing brace or bracket followed by an opening one, duplicated and new members (3 sampled additions per entry of the logs of (b) and (e)). Edits per log (b): every byte of every protected line " +
 		"(logs <= 2 KiB; sampled otherwise) x 1-2 replacement bytes, delete / swap (adjacent, distant, same index across chains) / duplicate (adjacent, elsewhere, to the end) of each entry, " +
 		"truncation of an entry and of the file at 8-10 offsets per entry, 8 tag replacements, strip/forge of chain markers, appended bytes, JSON member rewrites " +
 		"(order, white space, value exchange, two members folded into one name, string <-> number/boolean/null of the same spelling, a member moved into / cut out of the neighbouring string value at the separator word). " +
@@ -75,6 +78,7 @@ func Run(r *ev.Run) {
 	timed("c-long", func() { phaseLong(r, dir) })
 	timed("d-concurrent", func() { phaseConcurrent(r, dir) })
 	timed("e-levels", func() { phaseLevels(r, dir, broken) })
+	timed("f-around", func() { phaseAround(r, dir, broken) })
 	r.Extra("phase_wall_s", phaseWall)
 
 	for _, f := range formats {
@@ -91,6 +95,7 @@ func Run(r *ev.Run) {
 		"json-retype-boolean-to-string", "json-retype-null-to-string", "json-recut-member-moved-into-previous-value", "json-recut-value-cut-into-two-members"} {
 		r.RequireAtLeast("o2_detected_kind:"+k, 3)
 	}
+	aroundGuards(r)
 }
 
 // ---------------------------------------------------------------------------------------------------------------
@@ -650,6 +655,9 @@ func judgeEdit(r *ev.Run, v *verifier, L *prodLog, rng *gen.Rand, e *edit, attr 
 	default:
 		r.Count("o2_detected:"+format, 1)
 		r.Count("o2_detected_kind:"+e.kind, 1)
+		if strings.HasPrefix(e.kind, "add-") {
+			r.Count("o2_detected_kind:"+e.kind+":"+format, 1)
+		}
 		lv := ""
 		if L.hist != nil {
 			r.Count("levels_o2_detected:"+format, 1)
